@@ -14,7 +14,7 @@ use std::time::Duration as StdDuration;
 
 const SHUT: u16 = 900;
 #[derive(Clone, Debug, Default)]
-struct Scn { stages: usize, tick_ms: u64, nticks: usize, shut_at_ms: u64, restart_after_ms: Option<u64>, to_a_ms: Vec<u64>, via_a_ms: Vec<u64>, direct_ms: Vec<u64> }
+struct Scn { stages: usize, tick_ms: u64, nticks: usize, shut_at_ms: u64, restart_after_ms: Option<u64>, use_at: bool, again_after_ms: Option<u64>, to_a_ms: Vec<u64>, via_a_ms: Vec<u64>, direct_ms: Vec<u64> }
 
 static SCN: Mutex<Option<Scn>> = Mutex::new(None);
 static LOG: Mutex<Vec<(String, String, u64)>> = Mutex::new(Vec::new()); // (module, what, time_us)
@@ -38,6 +38,8 @@ impl Module for A {
                 for k in 0..sc.nticks { sleep(ms(sc.tick_ms)).await; log("a", format!("tick(gen{},{})", gen, k)); }
             });
             if gen == 1 { schedule_in(Message::default().kind(SHUT), ms(sc.shut_at_ms)); }
+            // the second incarnation may ask for another shutdown + restart from its own start-up
+            if gen == 2 { if let Some(r2) = sc.again_after_ms { log("a", "shutdown-requested-again".into()); current().shutdow_and_restart_in(ms(r2)); } }
         }
     }
     fn handle_message(&mut self, msg: Message) {
@@ -46,7 +48,11 @@ impl Module for A {
             log("a", "shutdown-requested".into());
             // the module is inert from the END of this event: what it sends in this event still goes out
             send(Message::default().id(450), "out");
-            match sc.restart_after_ms { Some(r) => current().shutdow_and_restart_in(ms(r)), None => current().shutdown() }
+            match sc.restart_after_ms {
+                Some(r) if sc.use_at => current().shutdow_and_restart_at(SimTime::now() + ms(r)),
+                Some(r) => current().shutdow_and_restart_in(ms(r)),
+                None => current().shutdown(),
+            }
         } else {
             log("a", format!("msg({})", msg.header().id));
         }
@@ -74,7 +80,9 @@ fn expected(sc: &Scn) -> Vec<(String, String, u64)> {
     let mut out: Vec<(String, String, u64)> = vec![];
     let s = sc.shut_at_ms * 1000;
     let back = sc.restart_after_ms.map(|r| s + r * 1000);
-    let up = |t_us: u64| t_us < s || back.map(|b| t_us > b).unwrap_or(false);
+    let again = match (back, sc.again_after_ms) { (Some(b), Some(r2)) => Some(b + r2 * 1000), _ => None };
+    let last_up = again.or(back);
+    let up = |t_us: u64| t_us < s || last_up.map(|b| t_us > b).unwrap_or(false);
     for st in 0..sc.stages { out.push(("a".into(), format!("start({})", st), 0)); }
     for k in 0..sc.nticks { let t = (k as u64 + 1) * sc.tick_ms * 1000; if t < s { out.push(("a".into(), format!("tick(gen1,{})", k), t)); } }
     out.push(("a".into(), "shutdown-requested".into(), s));
@@ -84,7 +92,17 @@ fn expected(sc: &Scn) -> Vec<(String, String, u64)> {
     if let Some(b) = back { out.push(("c".into(), "msg(402)".into(), b)); }
     if let Some(b) = back {
         for st in 0..sc.stages { out.push(("a".into(), format!("start({})", st), b)); }
-        for k in 0..sc.nticks { out.push(("a".into(), format!("tick(gen2,{})", k), b + (k as u64 + 1) * sc.tick_ms * 1000)); }
+        match again {
+            None => { for k in 0..sc.nticks { out.push(("a".into(), format!("tick(gen2,{})", k), b + (k as u64 + 1) * sc.tick_ms * 1000)); } }
+            Some(b2) => {
+                // asked again during its start-up: all stages still run, then it is reset once more and is inert until b2
+                out.push(("a".into(), "shutdown-requested-again".into(), b));
+                out.push(("a".into(), "reset(in context of a)".into(), b));
+                for st in 0..sc.stages { out.push(("a".into(), format!("start({})", st), b2)); }
+                out.push(("c".into(), "msg(403)".into(), b2));
+                for k in 0..sc.nticks { out.push(("a".into(), format!("tick(gen3,{})", k), b2 + (k as u64 + 1) * sc.tick_ms * 1000)); }
+            }
+        }
     }
     for (i, t) in sc.to_a_ms.iter().enumerate() { if up(t * 1000) { out.push(("a".into(), format!("msg({})", 100 + i), t * 1000)); } }
     for (i, t) in sc.via_a_ms.iter().enumerate() { if up(t * 1000) { out.push(("c".into(), format!("msg({})", 200 + i), t * 1000)); } }
@@ -105,7 +123,7 @@ fn main() {
         let times = |r: &mut dyn FnMut() -> u64, off: u64| -> Vec<u64> { let mut v: Vec<u64> = (0..r() % 5).map(|_| (r() % 15) * 10 + off).collect(); v.sort(); v.dedup(); v };
         let sc = Scn {
             stages: 1 + (rnd() % 3) as usize, tick_ms: 10 * (1 + rnd() % 3), nticks: 1 + (rnd() % 6) as usize,
-            shut_at_ms: (1 + rnd() % 8) * 10 + 1, restart_after_ms: if rnd() % 4 == 0 { None } else { Some((1 + rnd() % 6) * 10) },
+            shut_at_ms: (1 + rnd() % 8) * 10 + 1, restart_after_ms: if rnd() % 4 == 0 { None } else { Some((rnd() % 7) * 10) }, use_at: rnd() % 2 == 0, again_after_ms: if rnd() % 4 == 0 { Some((1 + rnd() % 4) * 10) } else { None },
             to_a_ms: times(&mut rnd, 3), via_a_ms: times(&mut rnd, 5), direct_ms: times(&mut rnd, 7),
         };
         last = format!("{:?}", sc);
